@@ -161,13 +161,17 @@ func (g *gen) maybeStatus() *StatusSpec {
 
 // hdrOps returns header/trailer setting operations for a handler.
 func (g *gen) hdrOp() Op {
+	op := Op{K: "settlr", MD: g.md(3)}
 	switch g.pick(3) {
 	case 0:
-		return Op{K: "sethdr", MD: g.md(3)}
+		op.K = "sethdr"
 	case 1:
-		return Op{K: "sendhdr", MD: g.md(3)}
+		op.K = "sendhdr"
 	}
-	return Op{K: "settlr", MD: g.md(3)}
+	if g.p(0.25) {
+		op.N = 1 // handler re-uses (overwrites) the metadata object afterwards
+	}
+	return op
 }
 
 func (g *gen) rpc(id int) *RPC {
